@@ -210,6 +210,17 @@ class _Fold(ast.NodeTransformer):
         node.values = out
         return node
 
+    def visit_Call(self, node):
+        self.generic_visit(node)
+        new_kw = []
+        for k in node.keywords:
+            if k.arg is None and isinstance(k.value, ast.Dict) and all(isinstance(x, ast.Constant) and isinstance(x.value, str) for x in k.value.keys):
+                new_kw.extend(ast.keyword(arg=x.value, value=v) for x, v in zip(k.value.keys, k.value.values))
+            else:
+                new_kw.append(k)
+        node.keywords = new_kw
+        return node
+
     def visit_IfExp(self, node):
         self.generic_visit(node)
         if isinstance(node.test, ast.Constant) and isinstance(node.test.value, bool):
@@ -251,8 +262,9 @@ class Inliner(object):
         self.kept_calls = {}  # helper FuncInfo -> count of call sites left alone
 
     # ------------------------------------------------------------------ which callee
-    def callee(self, fi, call):
-        """the helper FuncInfo a call denotes, with the expression bound to its first (self/cls) parameter, or (None, None)"""
+    def callee(self, fi, call, kind="plain"):
+        """the helper FuncInfo a call denotes, with the expression bound to its first (self/cls) parameter, or (None, None).
+        kind: 'plain' (no yield), 'gen' (a generator function), 'cm' (a @contextmanager generator function)"""
         f = call.func
         idx = self.idx
         cand = None
@@ -268,12 +280,22 @@ class Inliner(object):
                 r = idx.resolve(fi.module, f, fi)
                 if r and r[0] == "func":
                     cand = r[1]
+        if isinstance(f, ast.Name) and cand is None:
+            li = local_instance(idx, fi, f.id)
+            if li is not None and "__call__" in li[0].methods:
+                cand, recv = li[0].methods["__call__"], f
+        if cand is None and isinstance(f, ast.Attribute) and isinstance(f.value, ast.Name):
+            li = local_instance(idx, fi, f.value.id)
+            if li is not None and f.attr in li[0].methods and (not f.attr.startswith("__") or f.attr in ("__enter__", "__exit__", "__call__")):
+                cand, recv = li[0].methods[f.attr], f.value
+        if cand is not None:
+            pass
         elif isinstance(f, ast.Attribute) and isinstance(f.value, ast.Name):
             cls = idx.enclosing_class(fi)
             top = fi
             while top.parent is not None:
                 top = top.parent
-            selfname = top.node_orig.args.args[0].arg if (top.cls is not None and top.kind != "staticmethod" and top.node_orig.args.args) else None
+            selfname = top.node_prep.args.args[0].arg if (top.cls is not None and top.kind != "staticmethod" and top.node_prep.args.args) else None
             if cls is not None and f.value.id == selfname:
                 m = idx.find_method(cls, f.attr)
                 if m is not None:
@@ -290,24 +312,47 @@ class Inliner(object):
                     cand = r[2]
         if cand is None:
             return None, None
-        if _is_protocol(cand.name) or cand.kind == "property":
+        via_instance = recv is not None and cand.cls is not None and simple_class_fields(idx, cand.cls) is not None and idx.enclosing_class(fi) is not cand.cls
+        if (_is_protocol(cand.name) and not (via_instance and cand.name in ("__call__", "__enter__", "__exit__")) and not getattr(cand, "is_unwrapped_original", False)) or cand.kind == "property":
             return None, None
         if cand.module is not fi.module and cand.local_bindings:
             return None, None
-        a = cand.node_orig.args
-        if a.vararg or a.kwarg or a.kwonlyargs or a.posonlyargs:
+        a = cand.node_prep.args
+        if a.vararg or a.kwonlyargs or a.posonlyargs:
             return None, None
-        if any(isinstance(k, ast.keyword) and k.arg is None for k in call.keywords) or any(isinstance(x, ast.Starred) for x in call.args):
+        dstar = [k for k in call.keywords if k.arg is None]
+        if any(isinstance(x, ast.Starred) for x in call.args):
             return None, None
-        for d in cand.node_orig.decorator_list:
-            if not (isinstance(d, ast.Name) and d.id in ("staticmethod", "classmethod")):
+        # `**mapping` is accepted only as the whole of a `**kwargs` parameter (forwarding), nothing else
+        if dstar:
+            if not (a.kwarg is not None and len(dstar) == 1 and len(call.keywords) == 1):
                 return None, None
-        if _has(cand.node_orig.body, (ast.Yield, ast.YieldFrom, ast.FunctionDef, ast.AsyncFunctionDef, ast.ClassDef, ast.Global, ast.Nonlocal)):
+        is_cm = False
+        for d in cand.node_prep.decorator_list:
+            if isinstance(d, ast.Name) and d.id in ("staticmethod", "classmethod"):
+                continue
+            q = None
+            try:
+                q = idx.qualname(cand.module, d, cand)
+            except Exception:
+                q = None
+            if q == "contextlib.contextmanager":
+                is_cm = True
+                continue
+            return None, None
+        if _has(cand.node_prep.body, (ast.YieldFrom, ast.FunctionDef, ast.AsyncFunctionDef, ast.ClassDef, ast.Global, ast.Nonlocal)):
+            return None, None
+        is_gen = _has(cand.node_prep.body, (ast.Yield,))
+        if kind == "plain" and (is_gen or is_cm):
+            return None, None
+        if kind == "gen" and (not is_gen or is_cm):
+            return None, None
+        if kind == "cm" and not (is_gen and is_cm):
             return None, None
         return cand, recv
 
     def bind(self, cand, recv, call):
-        a = cand.node_orig.args
+        a = cand.node_prep.args
         params = [x.arg for x in a.args]
         mapping = {}
         if cand.cls is not None and cand.kind != "staticmethod":
@@ -320,9 +365,23 @@ class Inliner(object):
         for p, v in zip(params, call.args):
             mapping[p] = v
         for k in call.keywords:
+            if k.arg is None:
+                if a.kwarg is None:
+                    return None
+                mapping[a.kwarg.arg] = k.value
+                continue
+            if k.arg not in params and a.kwarg is not None and k.arg not in mapping:
+                extra = mapping.setdefault(a.kwarg.arg, ast.Dict(keys=[], values=[]))
+                if not isinstance(extra, ast.Dict):
+                    return None
+                extra.keys.append(ast.Constant(value=k.arg))
+                extra.values.append(k.value)
+                continue
             if k.arg not in params or k.arg in mapping:
                 return None
             mapping[k.arg] = k.value
+        if a.kwarg is not None and a.kwarg.arg not in mapping:
+            mapping[a.kwarg.arg] = ast.Dict(keys=[], values=[])
         dflt = a.defaults
         for i, p in enumerate(params):
             if p not in mapping:
@@ -337,7 +396,7 @@ class Inliner(object):
         self.counter += 1
         tag = "__i%d" % self.counter
         body = copy.deepcopy(_strip_doc(self.body_of(cand, stack)))
-        fn = ast.FunctionDef(name="_", args=cand.node_orig.args, body=body, decorator_list=[], returns=None)
+        fn = ast.FunctionDef(name="_", args=cand.node_prep.args, body=body, decorator_list=[], returns=None)
         stored = _stored_names(fn)
         pre = []
         m2 = {}
@@ -402,7 +461,7 @@ class Inliner(object):
     def body_of(self, cand, stack):
         """the helper's own body with its helpers already expanded"""
         if cand in stack or len(stack) >= self.MAX_DEPTH:
-            return cand.node_orig.body
+            return cand.node_prep.body
         return self.inline_function(cand, stack).body
 
     # ------------------------------------------------------------------ inlining one function
@@ -410,7 +469,7 @@ class Inliner(object):
         if fi in self.memo:
             return self.memo[fi]
         stack = tuple(stack) + (fi,)
-        node = copy.deepcopy(fi.node_orig)
+        node = copy.deepcopy(fi.node_prep)
         node.body = self.block(fi, node.body, stack, top=True)
         ast.fix_missing_locations(node)
         if len(stack) == 1:
@@ -430,6 +489,14 @@ class Inliner(object):
     def stmt(self, fi, s, stack, is_last=False):
         if isinstance(s, (ast.FunctionDef, ast.AsyncFunctionDef, ast.ClassDef)):
             return [s]
+        if isinstance(s, ast.For):
+            fused = self.gen_fused(fi, s, stack)
+            if fused is not None:
+                return self.block(fi, fused, stack)
+        if isinstance(s, ast.With):
+            w = self.cm_inlined(fi, s, stack)
+            if w is not None:
+                return self.block(fi, w, stack)
         # statement-level splices
         call = None
         form = None
@@ -445,7 +512,7 @@ class Inliner(object):
             cand, recv = self.callee(fi, call)
             if cand is not None and cand not in stack:
                 mapping = self.bind(cand, recv, call)
-                body0 = _strip_doc(cand.node_orig.body)
+                body0 = _strip_doc(cand.node_prep.body)
                 rets = _returns(body0)
                 last = body0[-1] if body0 else None
                 tail = isinstance(last, ast.Return) and last.value is not None and len(rets) == 1
@@ -551,18 +618,25 @@ class Inliner(object):
                 elif isinstance(value, list):
                     setattr(n, field, [walk(x) if isinstance(x, ast.expr) else (setattr(x, "value", walk(x.value)) or x) if isinstance(x, ast.keyword) else x for x in value])
             if isinstance(n, ast.Call):
+                if inl.gen_as_expression(fi, copy.deepcopy(n), stack) is None:
+                    m = inl.gen_materialised(fi, n, stack, pre)
+                    if m is not None:
+                        return m
                 cand, recv = inl.callee(fi, n)
                 if cand is None or cand in stack:
                     return n
-                body0 = _strip_doc(cand.node_orig.body)
+                body0 = _strip_doc(cand.node_prep.body)
                 rets = _returns(body0)
                 last = body0[-1] if body0 else None
-                if len(body0) > 1 and rets and all(r.value is not None for r in rets) and _always_returns(body0):
+                if rets and all(r.value is not None for r in rets) and _always_returns(body0):
                     mapping = inl.bind(cand, recv, n)
                     if mapping is None:
                         return n
                     ln = getattr(n, "lineno", 1)
                     body = inl.specialise(fi, cand, mapping, ln, stack)
+                    if len(body) == 1 and isinstance(body[0], ast.Return):
+                        inl.note(cand, True)
+                        return ast.copy_location(body[0].value, n)
                     inl.counter += 1
                     tmp = "__r%d" % inl.counter
 
@@ -581,6 +655,172 @@ class Inliner(object):
 
         return walk(e)
 
+    # ------------------------------------------------------------------ generators
+    def gen_as_expression(self, fi, call, stack):
+        """`g(args)` where g is `for x in IT: [if c:] yield e` -> the generator expression `(e for x in IT if c)`"""
+        cand, recv = self.callee(fi, call, kind="gen")
+        if cand is None or cand in stack:
+            return None
+        body0 = _strip_doc(cand.node_prep.body)
+        if not (len(body0) == 1 and isinstance(body0[0], ast.For) and not body0[0].orelse):
+            return None
+        lp = body0[0]
+        inner = lp.body
+        conds = []
+        while len(inner) == 1 and isinstance(inner[0], ast.If) and not inner[0].orelse:
+            conds.append(inner[0].test)
+            inner = inner[0].body
+        if not (len(inner) == 1 and isinstance(inner[0], ast.Expr) and isinstance(inner[0].value, ast.Yield) and inner[0].value.value is not None):
+            return None
+        mapping = self.bind(cand, recv, call)
+        if mapping is None:
+            return None
+        body = self.specialise(fi, cand, mapping, getattr(call, "lineno", 1), stack)
+        pre = body[:-1]
+        if pre or not isinstance(body[-1], ast.For):
+            return None  # a parameter had to be copied to a temporary: not an expression any more
+        lp = body[-1]
+        inner = lp.body
+        conds = []
+        while len(inner) == 1 and isinstance(inner[0], ast.If) and not inner[0].orelse:
+            conds.append(inner[0].test)
+            inner = inner[0].body
+        if not (len(inner) == 1 and isinstance(inner[0], ast.Expr) and isinstance(inner[0].value, ast.Yield)):
+            return None
+        self.note(cand, True)
+        g = ast.GeneratorExp(elt=inner[0].value.value, generators=[ast.comprehension(target=lp.target, iter=lp.iter, ifs=conds, is_async=0)])
+        return ast.fix_missing_locations(ast.copy_location(g, call))
+
+    def gen_materialised(self, fi, call, stack, pre):
+        """any other use of a generator call: its items are collected in a fresh list in front of the statement"""
+        cand, recv = self.callee(fi, call, kind="gen")
+        if cand is None or cand in stack:
+            return None
+        mapping = self.bind(cand, recv, call)
+        if mapping is None:
+            return None
+        ln = getattr(call, "lineno", 1)
+        body = self.specialise(fi, cand, mapping, ln, stack)
+        self.counter += 1
+        tmp = "__g%d" % self.counter
+        try:
+            body = _restructure(body, lambda r: []) if _returns(body) else body
+        except _NoRestructure:
+            self.note(cand, False)
+            return None
+
+        class Y(ast.NodeTransformer):
+            def visit_FunctionDef(self, n):
+                return n
+
+            def visit_Lambda(self, n):
+                return n
+
+            def visit_Expr(self, n):
+                if isinstance(n.value, ast.Yield):
+                    v = n.value.value if n.value.value is not None else ast.Constant(value=None)
+                    c = ast.Call(func=ast.Attribute(value=ast.Name(id=tmp, ctx=ast.Load()), attr="append", ctx=ast.Load()), args=[v], keywords=[])
+                    return ast.copy_location(ast.Expr(value=c), n)
+                return n
+
+        body = [Y().visit(b) for b in body]
+        if any(isinstance(x, ast.Yield) for b in body for x in ast.walk(b)):
+            self.note(cand, False)
+            return None  # a yield used as an expression
+        pre.append(ast.Assign(targets=[ast.Name(id=tmp, ctx=ast.Store())], value=ast.List(elts=[], ctx=ast.Load()), lineno=ln, col_offset=0))
+        pre.extend(body)
+        self.note(cand, True)
+        return ast.copy_location(ast.Name(id=tmp, ctx=ast.Load()), call)
+
+    def gen_fused(self, fi, loop, stack):
+        """`for T in g(args): BODY` -> g's body with every `yield e` replaced by `T = e; BODY` (no break/continue in BODY,
+        no return in g; each yield is the last statement of its block, so resuming after it does nothing more in that block)"""
+        call = loop.iter
+        if not isinstance(call, ast.Call) or loop.orelse:
+            return None
+        cand, recv = self.callee(fi, call, kind="gen")
+        if cand is None or cand in stack:
+            return None
+        if any(isinstance(n, (ast.Break, ast.Continue)) for b in loop.body for n in ast.walk(b)):
+            return None
+        mapping = self.bind(cand, recv, call)
+        if mapping is None:
+            return None
+        body = self.specialise(fi, cand, mapping, getattr(loop, "lineno", 1), stack)
+        if _returns(body):
+            return None
+        ok = [True]
+        n_y = [0]
+
+        def rewrite(stmts):
+            out = []
+            for i, st in enumerate(stmts):
+                if isinstance(st, ast.Expr) and isinstance(st.value, ast.Yield):
+                    n_y[0] += 1
+                    v = st.value.value if st.value.value is not None else ast.Constant(value=None)
+                    out.append(ast.Assign(targets=[copy.deepcopy(loop.target)], value=v, lineno=getattr(st, "lineno", 1), col_offset=0))
+                    out.extend(copy.deepcopy(loop.body) if n_y[0] > 1 else loop.body)
+                    continue
+                for f_ in ("body", "orelse", "finalbody"):
+                    v = getattr(st, f_, None)
+                    if isinstance(v, list) and v and isinstance(v[0], ast.stmt):
+                        setattr(st, f_, rewrite(v))
+                for h in getattr(st, "handlers", []) or []:
+                    h.body = rewrite(h.body)
+                if any(isinstance(x, ast.Yield) for x in ast.walk(st)) and not isinstance(st, (ast.For, ast.While, ast.If, ast.Try, ast.With)):
+                    ok[0] = False
+                out.append(st)
+            return out
+
+        new = rewrite(body)
+        if not ok[0] or n_y[0] == 0 or any(isinstance(x, ast.Yield) for b in new for x in ast.walk(b)):
+            return None
+        self.note(cand, True)
+        return new
+
+    def cm_inlined(self, fi, w, stack):
+        """`with cm(args) as x: BODY` for a @contextmanager generator with one yield -> cm's body with the yield statement
+        replaced by `x = value; BODY` (the try/except/finally around the yield now encloses BODY, which is what it does)"""
+        if len(w.items) != 1 or not isinstance(w.items[0].context_expr, ast.Call):
+            return None
+        call = w.items[0].context_expr
+        cand, recv = self.callee(fi, call, kind="cm")
+        if cand is None or cand in stack:
+            return None
+        mapping = self.bind(cand, recv, call)
+        if mapping is None:
+            return None
+        body = self.specialise(fi, cand, mapping, getattr(w, "lineno", 1), stack)
+        if _returns(body):
+            return None
+        n_y = [0]
+        target = w.items[0].optional_vars
+
+        def rewrite(stmts):
+            out = []
+            for st in stmts:
+                if isinstance(st, ast.Expr) and isinstance(st.value, ast.Yield):
+                    n_y[0] += 1
+                    if target is not None:
+                        v = st.value.value if st.value.value is not None else ast.Constant(value=None)
+                        out.append(ast.Assign(targets=[target], value=v, lineno=getattr(st, "lineno", 1), col_offset=0))
+                    out.extend(w.body)
+                    continue
+                for f_ in ("body", "orelse", "finalbody"):
+                    v = getattr(st, f_, None)
+                    if isinstance(v, list) and v and isinstance(v[0], ast.stmt):
+                        setattr(st, f_, rewrite(v))
+                for h in getattr(st, "handlers", []) or []:
+                    h.body = rewrite(h.body)
+                out.append(st)
+            return out
+
+        new = rewrite(body)
+        if n_y[0] != 1 or any(isinstance(x, ast.Yield) for b in new for x in ast.walk(b)):
+            return None
+        self.note(cand, True)
+        return new
+
     def expr(self, fi, e, stack):
         inl = self
 
@@ -590,12 +830,15 @@ class Inliner(object):
 
             def visit_Call(self, node):
                 self.generic_visit(node)
+                g = inl.gen_as_expression(fi, node, stack)
+                if g is not None:
+                    return g
                 cand, recv = inl.callee(fi, node)
                 if cand is None or cand in stack:
                     if cand is not None:
                         inl.note(cand, False)
                     return node
-                body0 = _strip_doc(cand.node_orig.body)
+                body0 = _strip_doc(cand.node_prep.body)
                 if len(body0) == 1 and isinstance(body0[0], ast.Return) and body0[0].value is not None:
                     mapping = inl.bind(cand, recv, node)
                     if mapping is not None:
@@ -607,6 +850,59 @@ class Inliner(object):
                 return node
 
         return T().visit(e)
+
+
+def simple_class_fields(idx, ci):
+    """For a plain record/strategy class - `__init__` made only of `self.f = <expression over its parameters>` - the list
+    [(field, expression)], the __init__ FuncInfo; else None."""
+    if not hasattr(ci, "methods"):
+        return None
+    init = ci.methods.get("__init__")
+    if init is None:
+        return None
+    for b in idx.mro(ci)[1:]:
+        if hasattr(b, "methods") and "__init__" in b.methods:
+            return None
+    if any(m in ci.methods for m in ("__getattr__", "__getattribute__", "__setattr__", "__new__")):
+        return None
+    node = getattr(init, "node_prep", None) or init.node
+    a = node.args
+    if a.vararg or a.kwarg or a.kwonlyargs or a.posonlyargs or not a.args:
+        return None
+    sn = a.args[0].arg
+    out = []
+    for st in _strip_doc(node.body):
+        if isinstance(st, ast.Assign) and len(st.targets) == 1 and isinstance(st.targets[0], ast.Attribute) and isinstance(st.targets[0].value, ast.Name) and st.targets[0].value.id == sn:
+            if any(isinstance(x, ast.Name) and x.id == sn for x in ast.walk(st.value)):
+                return None
+            out.append((st.targets[0].attr, st.value))
+        elif isinstance(st, ast.Pass):
+            continue
+        else:
+            return None
+    return out, init
+
+
+def local_instance(idx, fi, name):
+    """(ClassInfo, Assign node) when `name` is bound exactly once, in the enclosing top-level function, to `C(...)` with C
+    a simple class of the package"""
+    top = fi
+    while top.parent is not None:
+        top = top.parent
+    node = getattr(top, "node_prep", None) or top.node
+    found = None
+    n_store = 0
+    for n in ast.walk(node):
+        if isinstance(n, ast.Name) and n.id == name and isinstance(n.ctx, (ast.Store, ast.Del)):
+            n_store += 1
+        if isinstance(n, ast.Assign) and len(n.targets) == 1 and isinstance(n.targets[0], ast.Name) and n.targets[0].id == name and isinstance(n.value, ast.Call):
+            found = n
+    if found is None or n_store != 1 or name in [a.arg for a in node.args.args]:
+        return None
+    r = idx.resolve(top.module, found.value.func, top)
+    if not r or r[0] != "class" or simple_class_fields(idx, r[1]) is None:
+        return None
+    return r[1], found
 
 
 def _namedtuple_fields(idx, mod, func_expr, fi):
@@ -651,6 +947,34 @@ def scalarise_namedtuples(idx, fi, node):
         if isinstance(n, ast.Assign) and len(n.targets) == 1 and isinstance(n.value, ast.Call):
             fields = _namedtuple_fields(idx, mod, n.value.func, fi)
             if fields is None:
+                # an instance of a simple package class: fields are what __init__ stores, computed from its parameters
+                r_ = idx.resolve(mod, n.value.func, fi)
+                sc = simple_class_fields(idx, r_[1]) if r_ and r_[0] == "class" else None
+                if sc is not None and isinstance(n.targets[0], ast.Name):
+                    flds, init = sc
+                    inode = getattr(init, "node_prep", None) or init.node
+                    params = [a_.arg for a_ in inode.args.args[1:]]
+                    c0 = n.value
+                    if any(isinstance(a_, ast.Starred) for a_ in c0.args) or any(k.arg is None for k in c0.keywords) or len(c0.args) > len(params):
+                        continue
+                    bound = dict(zip(params, c0.args))
+                    for k in c0.keywords:
+                        bound[k.arg] = k.value
+                    dfl = inode.args.defaults
+                    for i_, p_ in enumerate(params):
+                        if p_ not in bound:
+                            j_ = i_ - (len(params) - len(dfl))
+                            if j_ >= 0:
+                                bound[p_] = dfl[j_]
+                    if set(bound) != set(params):
+                        continue
+
+                    class _P(ast.NodeTransformer):
+                        def visit_Name(self, x):
+                            return copy.deepcopy(bound[x.id]) if x.id in bound and isinstance(x.ctx, ast.Load) else x
+
+                    vals_ = {f_: _P().visit(copy.deepcopy(e_)) for f_, e_ in flds}
+                    assigns[n.targets[0].id] = (n, [f_ for f_, _ in flds], vals_, "object")
                 continue
             c = n.value
             if any(isinstance(a, ast.Starred) for a in c.args) or any(k.arg is None for k in c.keywords):
@@ -664,7 +988,7 @@ def scalarise_namedtuples(idx, fi, node):
                 continue
             t = n.targets[0]
             if isinstance(t, ast.Name):
-                assigns[t.id] = (n, fields, vals)
+                assigns[t.id] = (n, fields, vals, "tuple")
             elif isinstance(t, (ast.Tuple, ast.List)) and len(t.elts) == len(fields):
                 n.value = ast.copy_location(ast.Tuple(elts=[vals[f] for f in fields], ctx=ast.Load()), c)
     if not assigns:
@@ -672,7 +996,8 @@ def scalarise_namedtuples(idx, fi, node):
     for n in ast.walk(node):
         if isinstance(n, ast.Name) and n.id in assigns and isinstance(n.ctx, ast.Load):
             par = parents.get(n)
-            if isinstance(par, ast.Attribute) and par.value is n and isinstance(par.ctx, ast.Load) and par.attr in assigns[n.id][1]:
+            is_obj = assigns[n.id][3] == "object"
+            if isinstance(par, ast.Attribute) and par.value is n and par.attr in assigns[n.id][1] and (isinstance(par.ctx, ast.Load) or (is_obj and isinstance(par.ctx, ast.Store))):
                 uses.setdefault(n.id, []).append(par)
             else:
                 other.add(n.id)
@@ -682,16 +1007,16 @@ def scalarise_namedtuples(idx, fi, node):
 
     class T(ast.NodeTransformer):
         def visit_Attribute(self, n):
-            if isinstance(n.value, ast.Name) and n.value.id in todo and isinstance(n.ctx, ast.Load):
-                return ast.copy_location(ast.Name(id="%s__%s" % (n.value.id, n.attr), ctx=ast.Load()), n)
+            if isinstance(n.value, ast.Name) and n.value.id in todo and isinstance(n.ctx, (ast.Load, ast.Store)):
+                return ast.copy_location(ast.Name(id="%s__%s" % (n.value.id, n.attr), ctx=n.ctx), n)
             self.generic_visit(n)
             return n
 
         def visit_Assign(self, n):
             if len(n.targets) == 1 and isinstance(n.targets[0], ast.Name) and n.targets[0].id in todo and assigns[n.targets[0].id][0] is n:
                 w = n.targets[0].id
-                _, fields, vals = assigns[w]
-                order = [f for f, _ in zip(fields, n.value.args)] + [k.arg for k in n.value.keywords]
+                _, fields, vals, kind_ = assigns[w]
+                order = [f for f, _ in zip(fields, n.value.args)] + [k.arg for k in n.value.keywords] if kind_ == "tuple" else list(fields)
                 out = []
                 for f in order:
                     out.append(ast.copy_location(ast.Assign(targets=[ast.Name(id="%s__%s" % (w, f), ctx=ast.Store())], value=self.visit(vals[f]), lineno=n.lineno, col_offset=0), n))
@@ -704,30 +1029,191 @@ def scalarise_namedtuples(idx, fi, node):
     return node
 
 
+def propagate_name_copies(node):
+    """`t = v` where t is assigned once and v is a name that is never (re)assigned in the function (a parameter such as
+    `self`): every read of t becomes a read of v.  (temporaries left by record scalarisation and parameter passing)"""
+    stores = {}
+    for n in ast.walk(node):
+        if isinstance(n, ast.Name) and isinstance(n.ctx, (ast.Store, ast.Del)):
+            stores[n.id] = stores.get(n.id, 0) + 1
+        elif isinstance(n, ast.ExceptHandler) and n.name:
+            stores[n.name] = stores.get(n.name, 0) + 1
+    params = {a.arg for a in node.args.args} | ({node.args.kwarg.arg} if node.args.kwarg else set()) | ({node.args.vararg.arg} if node.args.vararg else set())
+    attr_stores = {n.attr for n in ast.walk(node) if isinstance(n, ast.Attribute) and isinstance(n.ctx, (ast.Store, ast.Del))}
+
+    def stable(v):
+        """an expression whose value cannot change inside this function: a constant, a parameter that is never reassigned,
+        or an attribute chain on one none of whose attribute names is ever stored here"""
+        if isinstance(v, ast.Constant):
+            return not isinstance(v.value, str) or len(v.value) < 40
+        if isinstance(v, ast.Name):
+            return v.id in params and not stores.get(v.id)
+        if isinstance(v, ast.Attribute):
+            return v.attr not in attr_stores and stable(v.value)
+        return False
+
+    copies = {}
+    for n in ast.walk(node):
+        if isinstance(n, ast.Assign) and len(n.targets) == 1 and isinstance(n.targets[0], ast.Name):
+            t = n.targets[0].id
+            # only temporaries the normaliser introduced itself (inlining / record scalarisation), never the author's locals
+            if stores.get(t) == 1 and t not in params and ("__i" in t or t.startswith("__cm") or t.startswith("__r") or "__" in t[2:]) and stable(n.value):
+                copies[t] = (n.value, n)
+    if not copies:
+        return node
+    drop = {id(c[1]) for c in copies.values()}
+
+    class T(ast.NodeTransformer):
+        def visit_Assign(self, n):
+            if id(n) in drop:
+                return None
+            self.generic_visit(n)
+            return n
+
+        def visit_Name(self, n):
+            if isinstance(n.ctx, ast.Load) and n.id in copies:
+                return ast.copy_location(copy.deepcopy(copies[n.id][0]), n)
+            return n
+
+        def visit_Expr(self, n):
+            self.generic_visit(n)
+            # a bare name or constant left over as a statement (the discarded value of an inlined helper)
+            if isinstance(n.value, (ast.Name, ast.Constant)) and not (isinstance(n.value, ast.Constant) and isinstance(n.value.value, str)):
+                return None
+            return n
+
+    node = T().visit(node)
+    for n in ast.walk(node):
+        for f_ in ("body", "finalbody"):
+            v = getattr(n, f_, None)
+            if isinstance(v, list) and not v and f_ == "body":
+                setattr(n, f_, [ast.Pass(lineno=getattr(n, "lineno", 1), col_offset=0)])
+    for n in ast.walk(node):
+        if isinstance(n, ast.Try) and not n.finalbody and not n.handlers:
+            n.finalbody = [ast.Pass(lineno=getattr(n, "lineno", 1), col_offset=0)]
+    ast.fix_missing_locations(node)
+    return node
+
+
+def unwrap_decorators(idx, normalize_pre):
+    """A function decorated with a package decorator of the wrapper pattern
+           def deco(fn):                      (optionally @functools.wraps(fn) on the wrapper)
+               def wrapper(<params>): ... fn(...) ...
+               return wrapper
+    is analysed as the wrapper's body with the original function available as a nested helper named like `fn`
+    (so the usual inlining puts the original body where the wrapper calls it)."""
+    from .index import FuncInfo
+
+    inl = Inliner(idx)
+    for fi in list(idx.funcs):
+        node = fi.node_prep
+        others = [d for d in node.decorator_list if not (isinstance(d, ast.Name) and d.id in ("staticmethod", "classmethod", "property"))]
+        if len(others) != 1 or len(node.decorator_list) != 1:
+            continue
+        d = others[0]
+        if isinstance(d, ast.Call):
+            continue  # decorator factories (TOKEN(...), click options) are not wrappers of this kind
+        r = idx.resolve(fi.module, d, fi)
+        if not r or r[0] != "func":
+            continue
+        deco = r[1]
+        dnode = getattr(deco, "node_prep", None) or deco.node
+        body = _strip_doc(dnode.body)
+        if len(dnode.args.args) != 1 or len(body) != 2 or not isinstance(body[0], ast.FunctionDef) or not (isinstance(body[1], ast.Return) and isinstance(body[1].value, ast.Name) and body[1].value.id == body[0].name):
+            continue
+        fn_param = dnode.args.args[0].arg
+        wrapper = body[0]
+        okd = True
+        for wd in wrapper.decorator_list:
+            q = None
+            try:
+                q = idx.qualname(deco.module, wd.func if isinstance(wd, ast.Call) else wd, deco)
+            except Exception:
+                q = None
+            if q != "functools.wraps":
+                okd = False
+        if not okd or _has(wrapper.body, (ast.Yield, ast.YieldFrom, ast.FunctionDef, ast.ClassDef, ast.Global, ast.Nonlocal)):
+            continue
+        # the original function, as a nested helper of the decorated one
+        orig_node = copy.deepcopy(node)
+        orig_node.decorator_list = []
+        orig_node.name = fn_param
+        orig = FuncInfo(fn_param, fi.module, orig_node, cls=None, parent=fi)
+        orig.enclosing_cls = fi.cls
+        orig.node_orig = orig_node
+        orig.node_prep = orig_node
+        orig.absorbed = False
+        orig.is_unwrapped_original = True
+        orig.nested = dict(fi.nested)
+        fi.nested = dict(fi.nested)
+        fi.nested[fn_param] = orig
+        idx.funcs.append(orig)
+        wbody = copy.deepcopy(_strip_doc(wrapper.body))
+        new = ast.FunctionDef(name=node.name, args=copy.deepcopy(wrapper.args), body=wbody, decorator_list=[], returns=None, type_comment=None, lineno=node.lineno, col_offset=node.col_offset)
+        if deco.module is not fi.module:
+            stored = _stored_names(new)
+            params = {a.arg for a in wrapper.args.args} | ({wrapper.args.kwarg.arg} if wrapper.args.kwarg else set()) | ({wrapper.args.vararg.arg} if wrapper.args.vararg else set()) | {fn_param}
+            ren = inl.harmonise(fi, deco, new.body, stored, params)
+            if ren:
+                sub = _Subst({}, ren)
+                new.body = [sub.visit(b) for b in new.body]
+        ast.fix_missing_locations(new)
+        fi.node_prep = new
+        fi.unwrapped_from = deco
+
+
 def normalise(idx):
     """Replace every function body of the index by its helper-inlined form (the original stays in `node_orig`)."""
+    from . import normalize_pre
+
     for fi in idx.funcs:
         fi.node_orig = fi.node
         fi.absorbed = False
-    inl = Inliner(idx)
-    new = {}
-    for fi in idx.funcs:
+    for fi in list(idx.funcs):
         try:
-            new[fi] = inl.inline_function(fi)
+            fi.node_prep = normalize_pre.prepare(idx, fi, copy.deepcopy(fi.node_orig))
         except RecursionError:
-            new[fi] = fi.node_orig
-    for fi, n in new.items():
-        try:
-            n = scalarise_namedtuples(idx, fi, n)
-        except RecursionError:
-            pass
-        fi.node = n
-        # import statements that moved in with a helper's body bind names in this function now
-        for x in idx._iter_own_nodes(n):
-            if isinstance(x, (ast.Import, ast.ImportFrom)):
-                idx._import_bindings(fi.module, x, fi.local_bindings)
-    for cand, cnt in inl.inlined_calls.items():
-        if cnt and not inl.kept_calls.get(cand):
+            fi.node_prep = fi.node_orig
+    unwrap_decorators(idx, normalize_pre)
+    total_inlined = {}
+    last_kept = {}
+    for round_ in range(2):
+        inl = Inliner(idx)
+        new = {}
+        for fi in idx.funcs:
+            try:
+                new[fi] = inl.inline_function(fi)
+            except RecursionError:
+                new[fi] = fi.node_prep
+        changed = False
+        for fi, n in new.items():
+            before = ast.dump(n)
+            try:
+                n = scalarise_namedtuples(idx, fi, n)
+                n = propagate_name_copies(n)
+                n = normalize_pre.expand_partials(idx, fi.module, fi, n)
+                n.body = fold_block(n.body)
+                ast.fix_missing_locations(n)
+            except RecursionError:
+                pass
+            if ast.dump(n) != before:
+                changed = True
+            fi.node = n
+            # import statements that moved in with a helper's body bind names in this function now
+            for x in idx._iter_own_nodes(n):
+                if isinstance(x, (ast.Import, ast.ImportFrom)):
+                    idx._import_bindings(fi.module, x, fi.local_bindings)
+        for cand, cnt in inl.inlined_calls.items():
+            total_inlined[cand] = total_inlined.get(cand, 0) + cnt
+        last_kept = dict(inl.kept_calls)
+        if not changed:
+            break
+        # what the post-passes uncovered (a partial that became a plain call, a record turned into locals) may be inlinable now
+        for fi in idx.funcs:
+            fi.node_prep = copy.deepcopy(fi.node)
+    for cand, cnt in total_inlined.items():
+        if cnt and not last_kept.get(cand):
             cand.absorbed = True
+    inl.inlined_calls = total_inlined
     idx.inlined_helpers = sorted("%s (%d site(s))" % (c.key, n) for c, n in inl.inlined_calls.items())
     return idx
